@@ -150,6 +150,54 @@ def judge(w, scn, res):
     return bad, counts
 
 
+def gen_raw(rng, seed):
+    """The same property one layer down: ZMQSender / ZMQReceiver used directly (no Filter loop), so that send() may block for
+    a long time (the documented timeout=None form) and a stalled consumer may still send out-of-band notes upstream."""
+    variant = rng.choice(['plain', 'common-pause', 'oob-notes', 'common-pause', 'oob-notes'])
+    stall_after = rng.randint(6, 12)
+    stall_secs = rng.choice([20, 40])
+    blocking = rng.random() < 0.7
+    P = {'id': 'P', 'role': 'raw_pub', 'config': {'outputs': ['ipc://P']}, 'start_ms': 0,
+         'raw': {'n': 10 ** 7, 'period_ms': rng.choice([0, 0, 20]), 'send_timeout_ms': None if blocking else rng.choice([100, 1000]),
+                 'required': ['A', 'B'] if rng.random() < 0.4 else None}}
+    A = {'id': 'A', 'role': 'raw_sub', 'config': {'sources': ['ipc://P']}, 'start_ms': rng.choice([0, 50]),
+         'raw': {'stall_after': stall_after, 'stall_secs': stall_secs, 'proc_ms': rng.choice([0, 10])}}
+    B = {'id': 'B', 'role': 'raw_sub', 'config': {'sources': ['ipc://P']}, 'start_ms': rng.choice([0, 50]), 'raw': {'proc_ms': rng.choice([5, 10, 20])}}      # B paces the stream once A has been forgotten (virtual time needs a cost per frame)
+    if variant == 'common-pause':
+        # both consumers stop asking for a few seconds (the publisher sits in ONE send() call meanwhile), then A stalls for good shortly after
+        n0 = stall_after - rng.randint(1, 2)
+        secs = rng.choice([2.0, 3.0, 4.0])
+        A['raw']['pauses'] = [[n0, secs]]
+        B['raw']['pauses'] = [[n0, secs]]
+    if variant == 'oob-notes':
+        A['raw']['oob_every_ms'] = rng.choice([50, 200])
+    link = {'max_delay_ms': rng.choice([0, 10, 50]), 'conn_ms': [0, 30], 'sub_ms': [0, 20]}
+    return {'seed': seed, 'link': link, 'until_ms': 80000, 'nodes': [P, A, B], 'topo': {'edges': []}, 'family': 'raw-stall', 'variant': variant,
+            'blocking': blocking, 'stop_when_all_done': False,
+            'stop_after': {'node': 'A', 'evs': ['stall-begin'], 'stall-begin_ms': CONN_TIMEOUT_MS + 1500}}
+
+
+def judge_raw(w, scn, res):
+    bad = []
+    sb = next((e for e in w.clog if e['ev'] == 'stall-begin' and e['node'] == 'A'), None)
+    if sb is None:
+        res.count('raw_stall_not_reached')
+        return bad
+    t0 = sb['t']
+    last_req = max((e['t'] for e in w.sim.log if e.get('ev') == 'push' and e['node'] == 'A' and e['t'] <= t0 and json.loads(e['env']).get('mid', -9) > -2), default=t0)
+    t_end = min(w.t_end, last_req + CONN_TIMEOUT_MS * 1_000_000)
+    mids = {(inc, mid) for t, inc, mid in monitors.publications(w, 'P') if t0 < t < t_end}
+    res.count('raw_stall_windows_checked')
+    res.count('raw_variant:' + scn['variant'])
+    res.maxi('raw_overrun', len(mids))
+    if len(mids) > BOUND:
+        bad.append(('overrun:raw-api', f'P (ZMQSender used directly, {"blocking" if scn["blocking"] else "timed"} send) published {len(mids)} further ids within {(t_end - t0) / 1e9:.1f} s after synchronized consumer A stopped reading, although A had not been silent for the connection timeout (bound {BOUND}); variant={scn["variant"]}'))
+    got_b = len([e for e in w.clog if e['ev'] == 'process' and e['node'] == 'B'])
+    if got_b >= 5:
+        res.nontrivial(f'raw|{scn["variant"]}|{scn["blocking"]}|{w.schedule_signature()}')
+    return bad
+
+
 def run_one(scn, res):
     w = world.run_scenario(scn)
     res.evaluations += 1
@@ -205,6 +253,20 @@ def run_shard(ctx):
             for secs in lengths[1:]:
                 if per_len[secs] != ref:
                     res.violation('overrun-grows-with-stall-length', f'publications during the stall differ with its length: {lengths[0]} s -> {ref}, {secs} s -> {per_len[secs]}; position={base["pos"]} required={base["required"]} seed={base["seed"]}', with_stall(base, secs))
+        if k % 3 == 0:
+            rr = ctx.rng('raw', k)
+            rscn = gen_raw(rr, rr.randrange(1 << 30))
+            try:
+                rw_ = world.run_scenario(rscn)
+                res.evaluations += 1
+                seen_ = set()
+                for mech, msg in judge_raw(rw_, rscn, res):
+                    if mech not in seen_:
+                        seen_.add(mech)
+                        res.violation(mech, f'{msg}; seed={rscn["seed"]}', rscn)
+            except Exception as e:
+                import traceback
+                res.inconclusive.append(f'raw scenario crashed the harness: {type(e).__name__}: {e} {traceback.format_exc()[-400:]}')
         if k == 0 and ctx.shard == 0:
             res.sample({'position': base['pos'], 'required': base['required'], 'speed': base['speed'], 'stall_at_id': base['stall_at'],
                         'publications_during_stall_by_length': {str(s): c for s, c in per_len.items()}})
@@ -225,6 +287,15 @@ def conclusive(agg, tier):
 def replay(spec):
     common.quiet_logging()
     res = common.Result()
+    if spec.get('family') == 'raw-stall':
+        w = world.run_scenario(spec)
+        bad = judge_raw(w, spec, res)
+        print('raw variant', spec['variant'], 'blocking', spec['blocking'], 'overrun', res.maxima if hasattr(res, 'maxima') else '')
+        for mech, msg in bad:
+            print('VIOLATES:', mech, '-', msg)
+        if not bad:
+            print('no violation on this tree')
+        return 1 if bad else 0
     w, bad, counts = run_one(spec, res)
     print('position', spec['pos'], 'required', spec['required'], 'speed', spec['speed'], 'stall', spec['stall_secs'], 's; publications during stall:', counts, 'depth gauge', w.sim.depth_max)
     for mech, msg in bad:
